@@ -14,6 +14,7 @@ mod c01;
 mod c02;
 mod c06;
 mod c07;
+mod c09;
 mod c13;
 mod c17;
 
@@ -45,6 +46,7 @@ fn run_case(line: &str) -> String {
         .or_else(|| c02::dispatch(kind, &f))
         .or_else(|| c06::dispatch(kind, &f))
         .or_else(|| c07::dispatch(kind, &f))
+        .or_else(|| c09::dispatch(kind, &f))
         .or_else(|| c13::dispatch(kind, &f))
         .or_else(|| c17::dispatch(kind, &f))
         .unwrap_or_else(|| format!("UNKNOWN-KIND {kind}"))
@@ -52,6 +54,10 @@ fn run_case(line: &str) -> String {
 
 fn main() {
     let args: Vec<String> = std::env::args().collect();
+    if args.len() >= 2 && args[1] == "--c09-child" {
+        // hidden mode of the C09 check: see c09.rs
+        return c09::child_main(&args[2..]);
+    }
     if args.len() != 3 {
         eprintln!("usage: hcore <case-file> <out-file>");
         std::process::exit(2);
